@@ -1,7 +1,7 @@
 // C13 — all HMM likelihood algorithms compute the same, correct probability of the data
 // VF-VARIANT: san
-// VF-RULE: E2: every (transition matrix with rows from a finite row set incl. zero entries) x (emission sequence over a finite set of per-site emission vectors with values in {0,1e-200,1e-3,0.5,1}, one positive entry per site) x (every subset of break points) x (emission parameter theta) for each (state count, length); inside a case every low-memory chunk size 2..L+1 (chunk size 1 in its own spaces), the rescaled and log-sum algorithms, posteriors, per-site likelihoods, first and second derivatives and a re-query pass are compared with long-double enumeration of all hidden paths (second-order jets in theta). Periodic emission blocks give lengths up to 12 (enumeration) and up to 5000 (long-double forward/backward reference, structured break-point families). Built-in transition models: every parameter vector over a finite value set. E1: breadth-first search over histories of parameter updates, setBreakPoints and queries on one likelihood object per (algorithm x transition model), each answer compared bit-for-bit with a fresh object at the same parameter values; same for the two built-in transition models alone. A case is non-trivial when it has >= 2 states and >= 2 sites (E2) or changed the canonical state (E1).
-// VF-BOUND: states 1..3 | 1..4; free emission sequences (every site chosen independently) up to length 5 | 6, periodic emission blocks up to length 7 | 12 with path enumeration (all break-point subsets throughout) and lengths 64, 1000 | 64, 200, 1000, 5000 with the forward reference (6 break-point families, chunk sizes {2,3,7,L-1,L,L+1,1000}); transition rows from a set of 4/6/7 rows per state count (all matrices over it); emission vectors: all 24 for 2 states at lengths 1-2, otherwise 2..6 representative vectors over {0,1e-200,1e-3,0.5,1}; theta in {1, 1.5}; built-in models: every parameter vector over 2..5 values per parameter; histories up to depth 3 | 4 over 18 operations on a 2-state 3-site model (closure for the transition models alone). State count 5, non-periodic sequences longer than 6 and break points outside 1..L-1 are not explored.
+// VF-RULE: E2: every (transition matrix with rows from a finite row set incl. zero entries) x (emission sequence over a finite set of per-site emission vectors with values in {0,1e-200,1e-3,0.5,1}, one positive entry per site) x (every subset of break points) x (emission parameters theta, phi: e = base*g(theta)*h(phi)) for each (state count, length); inside a case every low-memory chunk size 2..L+1 (chunk size 1 in its own spaces), the rescaled and log-sum algorithms, posteriors, per-site likelihoods, first and second derivatives for both emission parameters (second variable asked while the first is cached) and a re-query pass are compared with long-double enumeration of all hidden paths (second-order jets in theta). Periodic emission blocks give lengths up to 12 (enumeration) and up to 5000 (long-double forward/backward reference, structured break-point families). Every sequence of 1..3 derivative queries over {d1,d2} x {theta,phi} on one object is compared with enumeration and with a fresh object. Built-in transition models: every parameter vector over a finite value set. E1: breadth-first search over histories of parameter updates, setBreakPoints and queries on one likelihood object per (algorithm x transition model), each answer compared bit-for-bit with a fresh object at the same parameter values; same for the two built-in transition models alone. A case is non-trivial when it has >= 2 states and >= 2 sites (E2) or changed the canonical state (E1).
+// VF-BOUND: states 1..3 | 1..4; free emission sequences (every site chosen independently) up to length 5 | 6, periodic emission blocks up to length 7 | 12 with path enumeration (all break-point subsets throughout) and lengths 64, 1000 | 64, 200, 1000, 5000 with the forward reference (6 break-point families, chunk sizes {2,3,7,L-1,L,L+1,1000}); transition rows from a set of 4/6/7 rows per state count (all matrices over it); emission vectors: all 24 for 2 states at lengths 1-2, otherwise 2..6 representative vectors over {0,1e-200,1e-3,0.5,1}; (theta,phi) in {(1,1), (1.5,0.5)}; built-in models: every parameter vector over 2..5 values per parameter; histories up to depth 3 | 4 over 22 operations (derivative queries for both variables) on a 2-state 3-site model (closure for the transition models alone). State count 5, non-periodic sequences longer than 6 and break points outside 1..L-1 are not explored.
 // VF-LEVEL: bounded-exhaustive differential check of the real classes against path enumeration; no sampling. Tolerances are rounding bounds (64*L*n*eps relative to max(1,|logL|) for values, 1024*L^2*n^2*eps and 1024*L^3*n^2*eps for first and second derivatives); history answers are compared exactly.
 // VF-ASSUME: the harness-side HmmStateAlphabet/HmmTransitionMatrix/HmmEmissionProbabilities implementations (C13_hmm.hpp) follow the interfaces' contracts;; long double path enumeration is the definition of the likelihood (start vector pi.P as coded, equal to pi for a stationary pi);; g++/libstdc++ long double (x87 extended) arithmetic
 // VF-TECHNIQUE: exhaustive enumeration of finite model families and operation histories on the real code against a long-double path-enumeration reference and fresh-object differential oracle
@@ -59,7 +59,7 @@ static uint64_t ipow(uint64_t b, size_t e) { uint64_t r = 1; while (e--) r *= b;
 static std::string vv(const VVd& m) { std::string s = "["; for (auto& r : m) s += vf::vstr(r); return s + "]"; }
 static std::string describe(const Model& m) {
   std::string b = "{"; for (size_t x : m.bp) b += str(x) + ","; b += "}";
-  return "n=" + str(m.n) + " L=" + str(m.L) + " P=" + vv(m.P) + " pi=" + vf::vstr(m.pi) + (m.L <= 12 ? " emis(theta=1)=" + vv(m.base) : " emis=periodic " + vv(VVd(m.base.begin(), m.base.begin() + 3)) + "...") + " theta=" + num(m.theta) + " breakPoints=" + b;
+  return "n=" + str(m.n) + " L=" + str(m.L) + " P=" + vv(m.P) + " pi=" + vf::vstr(m.pi) + (m.L <= 12 ? " emis(theta=phi=1)=" + vv(m.base) : " emis=periodic " + vv(VVd(m.base.begin(), m.base.begin() + 3)) + "...") + " theta=" + num(m.theta) + " phi=" + num(m.phi) + " breakPoints=" + b;
 }
 static bool sameD(double a, double b) { return a == b || (std::isnan(a) && std::isnan(b)); }
 static bool sameV(const Vd& a, const Vd& b) { if (a.size() != b.size()) return false; for (size_t i = 0; i < a.size(); ++i) if (!sameD(a[i], b[i])) return false; return true; }
@@ -81,7 +81,7 @@ static std::unique_ptr<HmmLikelihood> mkLik(Alg alg, Built& b, size_t chunk, vf:
   }
 }
 static Built buildH(Alg alg, const Model& m, size_t chunk, vf::Case& c) {
-  Built b; b.a = std::make_shared<HAlphabet>(m.n); b.t = std::make_shared<HTrans>(b.a, m.P, m.pi); b.e = std::make_shared<HEmis>(b.a, m.base, m.theta);
+  Built b; b.a = std::make_shared<HAlphabet>(m.n); b.t = std::make_shared<HTrans>(b.a, m.P, m.pi); b.e = std::make_shared<HEmis>(b.a, m.base, m.theta, m.phi);
   b.lk = mkLik(alg, b, chunk, c);
   if (!m.bp.empty()) { c.site((std::string(ALGC[alg]) + "::setBreakPoints").c_str()); b.lk->setBreakPoints(m.bp); }
   return b;
@@ -181,6 +181,20 @@ static void judgeQueries(vf::Case& c, Alg algk, HmmLikelihood& lk, const Model& 
         double d2b = lk.getSecondOrderDerivative("theta");
         if (!sameD(d2, d2b)) c.fail(alg + "|requery|second-derivative-changed", in + ": " + num(d2) + " then " + num(d2b));
       }
+      // the second emission parameter, asked on the same object while the theta derivatives are cached: second derivative first
+      if (ok2) {
+        Model mq = m; mq.var = 1; Ref rq = enumerate(mq);
+        double u1 = 1024. * L * L * n * n * EPS * std::max(1., std::fabs((double)rq.d1)), u2 = 1024. * L * L * L * n * n * EPS * std::max(1., std::fabs((double)rq.d2));
+        c.site((cls + "::getSecondOrderDerivative(phi after theta)").c_str());
+        double e2 = lk.getSecondOrderDerivative("phi");
+        if (!(std::fabs(e2 + (double)rq.d2) <= u2)) c.fail(alg + "|other-variable|second-derivative-after-derivatives-of-first-variable", in + ": d2(-logL)/dphi2=" + num(e2) + " expected " + num(-(double)rq.d2) + " tol=" + num(u2));
+        c.site((cls + "::getFirstOrderDerivative(phi after theta)").c_str());
+        double e1 = lk.getFirstOrderDerivative("phi");
+        if (!(std::fabs(e1 + (double)rq.d1) <= u1)) c.fail(alg + "|other-variable|first-derivative-after-derivatives-of-first-variable", in + ": d(-logL)/dphi=" + num(e1) + " expected " + num(-(double)rq.d1) + " tol=" + num(u1));
+        c.site((cls + "::getFirstOrderDerivative(theta after phi)").c_str());
+        double d1c = lk.getFirstOrderDerivative("theta");
+        if (!sameD(d1, d1c)) c.fail(alg + "|other-variable|first-derivative-of-first-variable-changed", in + ": " + num(d1) + " then " + num(d1c));
+      }
     }
   }
   catch (Exception& e) { raised("derivative", e); }
@@ -263,7 +277,7 @@ static Model famModel(const Fam& f, uint64_t idx) {
   uint64_t nMat, nSeq, nBp; famSize(f, nMat, nSeq, nBp);
   // least significant: matrix, then theta, then break points, then emission sequence (index 0: uniform matrix, theta 1, no break point, first emission vector everywhere)
   uint64_t im = idx % nMat; idx /= nMat; uint64_t it = idx % f.nTheta; idx /= f.nTheta; uint64_t ib = idx % nBp; idx /= nBp; uint64_t is = idx;
-  Model m; m.n = f.n; m.L = f.L; m.theta = it == 0 ? 1.0 : 1.5;
+  Model m; m.n = f.n; m.L = f.L; m.theta = it == 0 ? 1.0 : 1.5; m.phi = it == 0 ? 1.0 : 0.5;
   VVd rows = rowSet(f.n); m.P.resize(f.n);
   for (size_t i = 0; i < f.n; ++i) { m.P[i] = rows[im % rows.size()]; im /= rows.size(); }
   m.pi = stationary(m.P);
@@ -309,6 +323,49 @@ static void famSpace(vf::Runner& R, const Fam& f) {
     } else runModel(c, m, r, useEnum, chunks);
     if (idx % 7919 == 11) c.sample(describe(m) + " -> logL " + (r.positive ? num((double)r.logL) : std::string("-inf")));
   }, f.L > 100 ? 30.0 : 10.0);
+}
+
+// ------------------------------------------------------------------------------------------------ E2: every order of derivative queries on one object
+// queries 0: d1(theta), 1: d1(phi), 2: d2(theta), 3: d2(phi); every sequence of 1, 2 and 3 queries on ONE object (no update in
+// between); each answer is compared with the enumeration reference and with a fresh object asked that query alone.
+static void derivOrderSpace(vf::Runner& R, bool th) {
+  Fam f; f.kind = "paths"; f.n = 2; f.L = 3; f.k = th ? 3 : 2; f.pmax = 0; f.nTheta = 2; f.allBp = true;
+  uint64_t a, b, d; uint64_t nModels = famSize(f, a, b, d); const uint64_t nSeq = 4 + 16 + 64;
+  R.space("derivative-orders:n2:L3:emis" + str(f.k) + ":theta2:queries<=3", nModels * nSeq, [=](uint64_t idx, vf::Case& c) {
+    uint64_t is = idx % nSeq, im = idx / nSeq;
+    std::vector<int> seq; if (is < 4) seq = {(int)is}; else if (is < 20) { is -= 4; seq = {(int)(is % 4), (int)(is / 4)}; } else { is -= 20; seq = {(int)(is % 4), (int)((is / 4) % 4), (int)(is / 16)}; }
+    Model m = famModel(f, im); Model mq = m; mq.var = 1;
+    Ref r[2] = {enumerate(m), enumerate(mq)};
+    static const char* QN[4] = {"getFirstOrderDerivative(theta)", "getFirstOrderDerivative(phi)", "getSecondOrderDerivative(theta)", "getSecondOrderDerivative(phi)"};
+    std::string sq; for (int q : seq) sq += std::string(QN[q]) + "; ";
+    if (!r[0].positive) { c.tag("impossible-data(likelihood 0)"); return; }
+    double L = (double)m.L, n = (double)m.n;
+    auto ask = [&](HmmLikelihood& lk, int q, const std::string& cls) {
+      c.site((cls + (q < 2 ? "::getFirstOrderDerivative" : "::getSecondOrderDerivative")).c_str());
+      return q < 2 ? lk.getFirstOrderDerivative(q == 0 ? "theta" : "phi") : lk.getSecondOrderDerivative(q == 2 ? "theta" : "phi");
+    };
+    for (int k = 0; k < 2; ++k) {
+      Alg alg = k == 0 ? RESC : LOGS; std::string an = ALGN[alg], cls = ALGC[alg];
+      Built o = buildH(alg, m, 0, c);
+      double ll = o.lk->getLogLikelihood();
+      if (!(std::fabs(ll - (double)r[0].logL) <= tolLog(m, r[0]))) { c.tag("loglik-wrong(judged-in-the-paths-spaces)"); continue; }
+      try {
+        for (size_t step = 0; step < seq.size(); ++step) {
+          int q = seq[step]; const Ref& rr = r[q % 2];
+          double got = ask(*o.lk, q, cls);
+          double want = q < 2 ? -(double)rr.d1 : -(double)rr.d2;
+          double tol = (q < 2 ? 1024. * L * L : 1024. * L * L * L) * n * n * EPS * std::max(1., std::fabs(want));
+          std::string w = describe(m) + " queries on one object: " + sq + "answer " + str(step + 1) + " = " + num(got);
+          if (!(std::fabs(got - want) <= tol)) { c.fail(an + "|derivative-order|" + (q < 2 ? "first" : "second") + "-derivative-differs-from-enumeration", w + " expected " + num(want) + " tol=" + num(tol)); break; }
+          Built fr = buildH(alg, m, 0, c);
+          double alone = ask(*fr.lk, q, cls);
+          if (!sameD(got, alone)) { c.fail(an + "|derivative-order|" + (q < 2 ? "first" : "second") + "-derivative-differs-from-fresh-object", w + " fresh object gives " + num(alone)); break; }
+        }
+      } catch (Exception& e) { c.fail(an + "|derivative-order|raised-exception", describe(m) + " queries: " + sq + typeid(e).name() + ": " + e.what()); }
+    }
+    c.tag("derivative-queries-on-two-variables"); c.nontrivial();
+    if (idx % 9973 == 3) c.sample(describe(m) + " queries: " + sq);
+  }, 10.0);
 }
 
 // ------------------------------------------------------------------------------------------------ E2: built-in transition models
@@ -462,21 +519,22 @@ struct E1Cfg {
 };
 
 struct LikSys : vf::SysBase {
-  E1Cfg cfg; int th = 0, ta = 0, tb = 0, bpi = 0;
+  E1Cfg cfg; int th = 0, ta = 0, tb = 0, bpi = 0, ph = 0;
   Built obj; std::vector<std::vector<int>> visited;   // configurations (theta, transition a, transition b, break points) held earlier in this history
-  static const int NOPS = 18;
-  Built fresh(vf::Case& c) const { return freshAt(c, th, ta, tb, bpi); }
-  Built freshAt(vf::Case& c, int th, int ta, int tb, int bpi) const {
+  static const int NOPS = 22;
+  static double phiV(int i) { return i ? 0.5 : 1.0; }
+  Built fresh(vf::Case& c) const { return freshAt(c, th, ta, tb, bpi, ph); }
+  Built freshAt(vf::Case& c, int th, int ta, int tb, int bpi, int ph) const {
     Built b; b.a = std::make_shared<HAlphabet>(2);
     if (cfg.mod == HFIX) b.t = std::make_shared<HTrans>(b.a, E1Cfg::fixedP(), stationary(E1Cfg::fixedP()));
     else if (cfg.mod == FULL) b.t = mkFull(b.a, Vd{cfg.taV(ta), cfg.tbV(tb)});
     else b.t = mkAuto(b.a, Vd{cfg.taV(ta), cfg.tbV(tb)});
-    b.e = std::make_shared<HEmis>(b.a, E1Cfg::base(), E1Cfg::thetaV(th));
+    b.e = std::make_shared<HEmis>(b.a, E1Cfg::base(), E1Cfg::thetaV(th), phiV(ph));
     b.lk = mkLik(cfg.alg, b, 2, c);
     if (bpi) b.lk->setBreakPoints(E1Cfg::bpV(bpi));
     return b;
   }
-  LikSys(Alg a, Mod m) { cfg.alg = a; cfg.mod = m; vf::Out o; vf::Case c; c.out = &o; c.muted = true; obj = fresh(c); visited.push_back({0, 0, 0, 0}); }
+  LikSys(Alg a, Mod m) { cfg.alg = a; cfg.mod = m; vf::Out o; vf::Case c; c.out = &o; c.muted = true; obj = fresh(c); visited.push_back({0, 0, 0, 0, 0}); }
   std::string opname(int op) const {
     switch (op) {
       case 0: return "setParameterValue(theta,1.5)"; case 1: return "setParameterValue(theta,1)";
@@ -485,15 +543,17 @@ struct LikSys : vf::SysBase {
       case 6: return "setBreakPoints({})"; case 7: return "setBreakPoints({1})"; case 8: return "setBreakPoints({2})"; case 9: return "setBreakPoints({1,2})";
       case 10: return "getLogLikelihood"; case 11: return "getHiddenStatesPosteriorProbabilities"; case 12: return "getHiddenStatesPosteriorProbabilitiesForASite(1)";
       case 13: return "getLikelihoodForEachSite+ForASite(0)"; case 14: return "getFirstOrderDerivative(theta)"; case 15: return "getSecondOrderDerivative(theta)";
-      case 16: return "hmmTransitionMatrix().getPij"; default: return "hmmTransitionMatrix().getEquilibriumFrequencies";
+      case 16: return "hmmTransitionMatrix().getPij"; case 17: return "hmmTransitionMatrix().getEquilibriumFrequencies";
+      case 18: return "getFirstOrderDerivative(phi)"; case 19: return "getSecondOrderDerivative(phi)";
+      case 20: return "setParameterValue(phi,0.5)"; default: return "setParameterValue(phi,1)";
     }
   }
   bool enabled(int op) {
     if (cfg.mod == HFIX && op >= 2 && op <= 5) return false;
-    if (cfg.alg == LOWM && op >= 11 && op <= 15) return false;   // documented: the low-memory class refuses these queries
+    if (cfg.alg == LOWM && ((op >= 11 && op <= 15) || op == 18 || op == 19)) return false;   // documented: the low-memory class refuses these queries
     return true;
   }
-  std::string canon() const { return "th" + str(th) + " ta" + str(ta) + " tb" + str(tb) + " bp" + str(bpi) + " | " + canonLik(*obj.lk) + " | " + canonTrans(*obj.t) + " | emis d1="
+  std::string canon() const { return "th" + str(th) + " ph" + str(ph) + " ta" + str(ta) + " tb" + str(tb) + " bp" + str(bpi) + " | " + canonLik(*obj.lk) + " | " + canonTrans(*obj.t) + " | emis d1="
     + [&] { std::string s; dvv(s, obj.e->d1_); s += " d2="; dvv(s, obj.e->d2_); return s; }(); }
   // the query part of an operation, on any object (the explored one or a fresh one). For the fresh object the second derivative is
   // asked after the first one (the order in which the second-derivative recursion has its inputs).
@@ -506,21 +566,24 @@ struct LikSys : vf::SysBase {
       case 14: c.site((cls + "::getFirstOrderDerivative").c_str()); return Vd{b.lk->getFirstOrderDerivative("theta")};
       case 15: if (isFresh) b.lk->getFirstOrderDerivative("theta"); c.site((cls + "::getSecondOrderDerivative").c_str()); return Vd{b.lk->getSecondOrderDerivative("theta")};
       case 16: c.site("HmmTransitionMatrix::getPij"); return flat(matOf(b.lk->hmmTransitionMatrix().getPij()));
-      default: c.site("HmmTransitionMatrix::getEquilibriumFrequencies"); return b.lk->hmmTransitionMatrix().getEquilibriumFrequencies();
+      case 17: c.site("HmmTransitionMatrix::getEquilibriumFrequencies"); return b.lk->hmmTransitionMatrix().getEquilibriumFrequencies();
+      case 18: c.site((cls + "::getFirstOrderDerivative").c_str()); return Vd{b.lk->getFirstOrderDerivative("phi")};
+      default: if (isFresh) b.lk->getFirstOrderDerivative("phi"); c.site((cls + "::getSecondOrderDerivative").c_str()); return Vd{b.lk->getSecondOrderDerivative("phi")};
     }
   }
   void apply(int op, vf::Case& c) {
     std::string cls = ALGC[cfg.alg], alg = ALGN[cfg.alg];
     std::string before = c.muted ? std::string() : canon();
-    Vd ans; bool isQuery = op >= 10;
-    if (op <= 1) { th = op == 0; c.site((cls + "::setParameterValue(theta)").c_str()); obj.lk->setParameterValue("theta", E1Cfg::thetaV(th)); }
+    Vd ans; bool isQuery = op >= 10 && op <= 19;
+    if (op >= 20) { ph = op == 20; c.site((cls + "::setParameterValue(phi)").c_str()); obj.lk->setParameterValue("phi", phiV(ph)); }
+    else if (op <= 1) { th = op == 0; c.site((cls + "::setParameterValue(theta)").c_str()); obj.lk->setParameterValue("theta", E1Cfg::thetaV(th)); }
     else if (op <= 3) { ta = op == 2; c.site((cls + "::setParameterValue(transition)").c_str()); obj.lk->setParameterValue(cfg.taN(), cfg.taV(ta)); }
     else if (op <= 5) { tb = op == 4; c.site((cls + "::setParameterValue(transition)").c_str()); obj.lk->setParameterValue(cfg.tbN(), cfg.tbV(tb)); }
     else if (op <= 9) { bpi = op - 6; c.site((cls + "::setBreakPoints").c_str()); obj.lk->setBreakPoints(E1Cfg::bpV(bpi)); }
     else ans = query(op, obj, false, c, cls);
-    if (!isQuery) visited.push_back({th, ta, tb, bpi});
+    if (!isQuery) visited.push_back({th, ta, tb, bpi, ph});
     if (c.muted) return;
-    std::string ctx = std::string(alg) + " with " + MODN[cfg.mod] + " transition model, n=2 L=3, after " + opname(op) + " at theta=" + num(E1Cfg::thetaV(th))
+    std::string ctx = std::string(alg) + " with " + MODN[cfg.mod] + " transition model, n=2 L=3, after " + opname(op) + " at theta=" + num(E1Cfg::thetaV(th)) + " phi=" + num(phiV(ph))
       + (cfg.mod != HFIX ? " " + cfg.taN() + "=" + num(cfg.taV(ta)) + " " + cfg.tbN() + "=" + num(cfg.tbV(tb)) : std::string()) + " breakPoints=" + opname(6 + bpi).substr(15);
     vf::Out fo; vf::Case fc; fc.out = &fo; fc.slot = c.slot; fc.space = c.space; fc.muted = true;
     Built fr = fresh(fc);
@@ -534,10 +597,10 @@ struct LikSys : vf::SysBase {
         // outcome class: is this the answer that was right for a configuration the object held earlier in this history?
         std::string k = "differs";
         for (size_t v = 0; v < visited.size() && k == "differs"; ++v) {
-          const std::vector<int>& q = visited[v]; if (q == std::vector<int>{th, ta, tb, bpi}) continue;
-          Built old = freshAt(fc, q[0], q[1], q[2], q[3]); if (sameV(query(op, old, true, fc, cls), ans)) k = "stale(answer-of-an-earlier-configuration)";
+          const std::vector<int>& q = visited[v]; if (q == std::vector<int>{th, ta, tb, bpi, ph}) continue;
+          Built old = freshAt(fc, q[0], q[1], q[2], q[3], q[4]); if (sameV(query(op, old, true, fc, cls), ans)) k = "stale(answer-of-an-earlier-configuration)";
         }
-        static const char* Q[] = {"loglik", "posteriors", "posterior-for-a-site", "site-likelihoods", "first-derivative", "second-derivative", "getPij", "equilibrium"};
+        static const char* Q[] = {"loglik", "posteriors", "posterior-for-a-site", "site-likelihoods", "first-derivative", "second-derivative", "getPij", "equilibrium", "first-derivative", "second-derivative"};
         c.fail("history|" + alg + "|" + Q[op - 10] + "|" + k, ctx + ": got " + vf::vstr(ans) + " fresh object gives " + vf::vstr(fa));
       }
     }
@@ -637,6 +700,7 @@ int main(int argc, char** argv) {
   // machine cuts into the largest enumerations only
   auto small = [](const Fam& f) { uint64_t a, b, c; return f.kind == "chunk1" || famSize(f, a, b, c) <= 5000; };
   for (auto& f : fams) if (small(f)) famSpace(R, f);
+  derivOrderSpace(R, th);
   builtinSpaces(R, th);
 
   int depth = th ? 4 : 3;
@@ -651,10 +715,11 @@ int main(int argc, char** argv) {
 
   for (auto& f : fams) if (!small(f)) famSpace(R, f);
 
-  R.expectSeen("zero-transition-entry"); R.expectSeen("zero-emission-entry"); R.expectSeen("emission-1e-200"); R.expectSeen("with-break-points"); R.expectSeen("possible-data"); R.expectSeen("reference-derivatives-cross-checked-by-finite-differences");
+  R.expectSeen("zero-transition-entry"); R.expectSeen("zero-emission-entry"); R.expectSeen("emission-1e-200"); R.expectSeen("with-break-points"); R.expectSeen("possible-data"); R.expectSeen("reference-derivatives-cross-checked-by-finite-differences"); R.expectSeen("derivative-queries-on-two-variables");
   R.note("segments start from pi.P as the code does (pi supplied by the harness is stationary, so pi.P = pi up to rounding); break points are ascending indices in 1..L-1 naming the first site of a new segment");
   R.note("data of probability 0 (all paths impossible) are recorded as an outcome class; only a finite answer is judged wrong there, posteriors and derivatives are not judged");
   R.note("posteriors, per-site likelihoods, derivatives and re-query answers of an object are judged only when its log-likelihood is right (they are downstream of the same forward pass)");
+  R.note("the emission table has two parameters, e = base * g(theta) * h(phi); derivative queries are made for both, in every order of up to three queries on one object (E2) and interleaved with updates (E1)");
   R.note("derivative reference: exact second-order jets of the enumerated likelihood (sharper than finite differences of the enumerated log-likelihood, with which they agree)");
   R.note("a wrong log-likelihood on data whose per-site rescaled forward quantities fall below 1e-290 (not representable next to a normalised scale in double) is reported under its own signature class, so that this input class cannot share a signature with any other wrong value");
   R.note("LowMemoryRescaledHmmLikelihood documents that it has no posteriors/derivatives (NotImplementedException): only its log-likelihood is judged");
